@@ -84,7 +84,9 @@ class Engine(ExprMixin, CallMixin, StmtMixin):
         ghost_exit = kw.pop("ghost_exit", ())
         log_events = kw.pop("log_events", None)
         cuts = kw.pop("cuts", ())
+        defines = kw.pop("defines", ())
         c = Contract(key, **kw)
+        c.defines = list(defines)
         c.cuts = list(cuts)
         c.ghost_exit = list(ghost_exit)
         c.log_events = log_events
@@ -336,7 +338,10 @@ class Engine(ExprMixin, CallMixin, StmtMixin):
         # sidecar ghost code anchored at the normal exit of the function
         for gname, gexpr in getattr(c, "ghost_exit", ()):
             env0 = self.post_env(c, final, entry)
-            gv = self.spec(gexpr, final, env=env0, old=entry, want_bool=False)
+            r0 = o.val if o.kind == "return" and o.val is not None else self.lift(None)
+            if c.returns is not None and c.returns is not T.NONE:
+                r0 = self.coerce(r0, c.returns, node)
+            gv = self.spec(gexpr, final, env=env0, old=entry, result=r0, want_bool=False)
             final = final.set_ghost(gname, self.coerce(gv, self.ghost_decl[gname]))
         res = o.val if o.kind == "return" and o.val is not None else self.lift(None)
         if c.returns is not None and c.returns is not T.NONE:
